@@ -7,6 +7,15 @@ NOTES = ("All checks: bin/check <id>. Each run regenerates coq/Gen from /repo, r
          "Known findings: KNOWN_FINDINGS.txt.")
 NOT_APPLICABLE = {}
 CLAIMED = {
+    "C02": {
+        "text": "Theorems: every var/type/field (and every non-exempt func/method) of an obfuscated package is written under a name that is pure digest "
+                "text; the linker command line is characterised exactly (-importcfg and -buildid replaced in place, -X duplicates, buildVersion override, "
+                "-w -s last); garble's temp dir is first in -trimpath (both flag forms). Tied by `garble -debug` linker/compiler command lines against the "
+                "Coq model, and by scanning binaries of a marker module (unique markers in every nameable position, TMPDIR inside/outside the source "
+                "dir) for markers, Go version, build id, module info and symbol/DWARF sections. Partial: what the toolchain emits is scanned, not proved.",
+        "note": "Trusted: Coq kernel; -debug log lines; ELF parser; byte scan of the built instances. No axioms.",
+        "technique": "Coq proof of the flag surgery and naming decision + in-Coq correspondence with observed link argv + marker scan of real binaries",
+    },
     "C01": {
         "text": "Theorems: renaming preserves lexical resolution (and captures nothing) and interface satisfaction under the no-clash caveat; entry points, "
                 "exported methods, tests, plain packages are fixed points of the decision; linkname rewriting yields exactly the declaring build's import "
